@@ -9,6 +9,8 @@ EXTENDS Str, Json
 SetH(a, b) == [k |-> "set", a |-> a, b |-> b, n |-> 0]
 WH(c)      == [k |-> "wh", a |-> "", b |-> "", n |-> c]
 Wr(n)      == [k |-> "w", a |-> "", b |-> "", n |-> n]
+Pn         == [k |-> "panic", a |-> "", b |-> "", n |-> 0]      \* the handler panics here; the router is built with a bundled recovery option
+HasPanic(prog) == \E i \in DOMAIN prog : prog[i].k = "panic"
 
 W0 == [hdr |-> <<>>, sent |-> <<>>, status |-> 0, committed |-> FALSE, body |-> 0, explicit |-> FALSE, writes |-> 0]
 
@@ -18,6 +20,7 @@ Step(w, s) ==
   CASE s.k = "set" -> [w EXCEPT !.hdr = (s.a :> s.b) @@ w.hdr]           \* after the commit this no longer reaches the client
     [] s.k = "wh"  -> IF w.committed THEN w ELSE [Commit(w, s.n) EXCEPT !.explicit = TRUE]
     [] s.k = "w"   -> [Commit(w, 200) EXCEPT !.body = w.body + s.n, !.writes = w.writes + 1]
+    [] OTHER       -> w
 
 RECURSIVE RunFrom(_, _, _)
 RunFrom(w, prog, i) == IF i > Len(prog) THEN Commit(w, 200) ELSE RunFrom(Step(w, prog[i]), prog, i + 1)
@@ -39,7 +42,7 @@ HeadOK(prog, status, sent, body) ==
 CONSTANTS Steps, MaxLen
 VARIABLE prog
 Init == prog = <<>>
-Next == Len(prog) < MaxLen /\ \E s \in Steps : prog' = Append(prog, s)
+Next == Len(prog) < MaxLen /\ ~HasPanic(prog) /\ \E s \in Steps : prog' = Append(prog, s)
 Spec == Init /\ [][Next]_prog
 
 \* design-level sanity (checked by TLC on every program): the GET run is well-formed and a
@@ -47,8 +50,10 @@ Spec == Init /\ [][Next]_prog
 IdealHead(p) == LET g == RunGET(p) IN
   [status |-> g.status, body |-> 0,
    sent |-> IF ~g.explicit /\ g.writes > 0 THEN (CL :> ToString(g.body)) @@ g.sent ELSE g.sent]
-C08_Consistent == LET h == IdealHead(prog) IN HeadOK(prog, h.status, h.sent, h.body)
-GetCommitted == RunGET(prog).committed /\ RunGET(prog).status \in {200, 201, 404}
+\* (what the recovery function writes after a panic is net/http's business, not the specification's: for those programs
+\*  the trace specification relates the RECORDED HEAD reply to the RECORDED GET reply instead)
+C08_Consistent == HasPanic(prog) \/ LET h == IdealHead(prog) IN HeadOK(prog, h.status, h.sent, h.body)
+GetCommitted == HasPanic(prog) \/ (RunGET(prog).committed /\ RunGET(prog).status \in {200, 201, 404})
 
 Emit == Len(prog) > 0 => PrintT("CASE " \o ToJson([fam |-> "head", ops |-> <<[op |-> "prog", prog |-> prog]>>]))
 =============================================================================
